@@ -101,6 +101,9 @@ EQUIVALENT = [
  # never be placed inside (or below) that block
  ("eq_cleanup_only_in_finally", "C12", [(L, "    _VAR.clear()\n    _PARAMS.clear()\n\n    lexer = blackbirdLexer(data)", "    lexer = blackbirdLexer(data)"),
                                         (L, "    walker.walk(blackbird, tree)\n\n    return blackbird.program", "    try:\n        walker.walk(blackbird, tree)\n    finally:\n        _VAR.clear()\n        _PARAMS.clear()\n\n    return blackbird.program")]),
+ # the same cleanup written as except BaseException: undo(); raise / else: undo()
+ ("eq_digraph_temporary_keys_removed_in_else", "C13", [
+     (U, "    grid = {}\n\n    for idx, op in enumerate(program.operations):", "    grid = {}\n    added = []\n    try:\n        for op in program.operations:\n            if 'args' not in op:\n                added.append(op)\n                op['args'] = []\n                op['kwargs'] = {}\n        G_ = _to_DiGraph(program, grid)\n    except BaseException:\n        _strip(added)\n        raise\n    else:\n        _strip(added)\n    return G_\n\n\ndef _strip(added):\n    for op in added:\n        del op['args']\n        del op['kwargs']\n\n\ndef _to_DiGraph(program, grid):\n    for idx, op in enumerate(program.operations):")]),
  ("eq_digraph_temporary_keys_removed_in_finally", "C13", [
      (U, "    grid = {}\n\n    for idx, op in enumerate(program.operations):", "    grid = {}\n    added = []\n    try:\n        for op in program.operations:\n            if 'args' not in op:\n                added.append(op)\n                op['args'] = []\n                op['kwargs'] = {}\n        return _to_DiGraph(program, grid)\n    finally:\n        for op in added:\n            del op['args']\n            del op['kwargs']\n\n\ndef _to_DiGraph(program, grid):\n    for idx, op in enumerate(program.operations):")]),
  ("eq_include_read_with_pathlib", "C07", [(L, "        data = antlr4.FileStream(filename)\n", "        import pathlib\n        data = antlr4.InputStream(pathlib.Path(filename).read_bytes().decode(\"ascii\"))\n")]),
